@@ -2,7 +2,7 @@
    Only statements (pinned), non-vacuity examples, the refutation witness for the known
    deviation F3 and Print Assumptions. Model: Factory/Model.v; proofs: Factory/Route.v. *)
 From Coq Require Import List NArith Bool.
-From RV Require Import Factory.Model Factory.Scenario Factory.Oracle Factory.Route.
+From RV Require Import Factory.Model Factory.Scenario Factory.Oracle Factory.Route Factory.RoutePool.
 Import ListNotations.
 Local Open Scope N_scope.
 
@@ -57,13 +57,26 @@ Theorem C14_queuer_no_idle_backlog_partial : forall c k w w',
   forall wid, In wid (avail w) -> worker_available w wid = false.
 Proof. exact queuer_none_no_idle_listed. Qed.
 
+(* (4) one job at a time, factory side: in every reachable state of every history (stale
+   completions included) the factory records at most one running job per worker; it is an
+   instance of the generic per-worker invariant theorem RoutePool.pool_invariant *)
+Theorem C14_one_at_a_time : forall c n d rls ls wid p,
+  lookup wid (pool (run c (init c n d rls) ls)) = Some p -> (length (w_curr p) <= 1)%nat.
+Proof. exact one_at_a_time_factory_side. Qed.
+
+(* actor side: a worker actor whose handler is busy does not take another job *)
+Theorem C14_actor_busy_takes_nothing : forall a w x,
+  lookup a (actors w) = Some x -> a_run x <> None -> w_start a w = w.
+Proof. exact one_at_a_time_actor_side. Qed.
+
 (* OPEN (stated, not proved in this round):
    C14_affinity: for key-persistent and sticky routing, over label sequences in which no
      Finished message is processed after the death of its sender (ghost field of MFinished),
      no two actors of different workers have a running job of the same key.
    C14_key_order: with key-persistent routing the EStart events of one key follow dispatch order.
    C14_queuer_no_idle_backlog (full): fq <> [] -> every idle non-draining pool worker is listed in `avail`.
-   C14_one_at_a_time (factory side): length (w_curr p) <= 1 for every pool worker.
+   C14_one_at_a_time for the REAL slots (mailbox + running slot of a worker's actor hold at most one
+     job) needs the same no-stale-completion hypothesis as affinity: F3 puts a second job in the mailbox.
    They are checked on every run by check_C14 on the implementation's histories and by the
    model/implementation view comparison; the unrestricted affinity statement is refuted below. *)
 
@@ -130,3 +143,5 @@ Print Assumptions C14_round_robin_step.
 Print Assumptions C14_round_robin_spread.
 Print Assumptions C14_queuer_target_idle.
 Print Assumptions C14_queuer_no_idle_backlog_partial.
+Print Assumptions C14_one_at_a_time.
+Print Assumptions C14_actor_busy_takes_nothing.
